@@ -123,9 +123,12 @@ def r14_dict(ctx):
 
         def thunk():
             m = wire.make_message(ctx, t, dict(attrs), smf.sym('time', 10 ** 6))
+            m.stores.clear()
             holder['m'] = m
+            holder['before'] = dict(m.attrs)
             d = ai.call_function(dictf, [m], {})
             holder['d'] = d
+            holder['after'] = dict(m.attrs)
             return ai.call_function(fromd, [ClassRef(cls), d], {})
         outs = ai.explore(thunk)
         inst = f'from_dict({t}.dict())'
@@ -140,6 +143,13 @@ def r14_dict(ctx):
             if t == 'sysex' and isinstance(d, ADict):
                 ok = ok and isinstance(d.d.get('data'), AList) and d.d['data'].kind == 'list'
         ctx.require(ok, 'R14.5', inst, w, why, construct=f'{fromd.qname}::roundtrip')
+        # taking the dict leaves the message as it was: same attribute objects (sysex data still the tuple), nothing stored
+        same = 'before' in holder and list(holder['before']) == list(holder['after']) and \
+            all(holder['before'][k] is holder['after'][k] for k in holder['before']) and not holder['m'].stores
+        ctx.require(same, 'R14.5', f'{t}.dict() leaves the message unchanged', ctx.where(dictf),
+                    f'attributes before: {holder.get("before")!r}; after dict(): {holder.get("after")!r} (stores: {holder["m"].stores!r:.120}) - '
+                    'the message must still equal what it was, or the next round trip compares against something else',
+                    construct=f'{dictf.qname}::leaves-message-unchanged')
 
 
 BAD_TEXTS = ['foo', '', '   ', 'note_on note', 'note_on note=', 'note_on note=x', 'note_on note=1.5', 'note_on note=300', 'note_on channel=16',
@@ -212,88 +222,6 @@ def r14_errors(ctx):
     ctx.require(ok, 'R14.4', 'parse_string_stream', wst, why, construct=f'{pss.qname}::stream')
     for q in ai.inlined:
         ctx.functions.add(q)
-
-
-def _fmt_values(node):
-    """(expr, conversion) of every interpolated value in f-strings / .format() calls inside node."""
-    out = []
-    for n in ast.walk(node):
-        if isinstance(n, ast.JoinedStr):
-            for v in n.values:
-                if isinstance(v, ast.FormattedValue):
-                    out.append((v.value, {114: 'r', 115: 's', -1: None}.get(v.conversion, None), n))
-        elif isinstance(n, ast.Call) and isinstance(n.func, ast.Attribute) and n.func.attr == 'format' and isinstance(n.func.value, ast.Constant) \
-                and isinstance(n.func.value.value, str):
-            import string
-            fields = [(f, c) for _, f, _, c in string.Formatter().parse(n.func.value.value) if f is not None]
-            for i, (f, c) in enumerate(fields):
-                arg = None
-                if f == '' and i < len(n.args):
-                    arg = n.args[i]
-                elif f.isdigit() and int(f) < len(n.args):
-                    arg = n.args[int(f)]
-                else:
-                    arg = astq.kwarg(n, f)
-                if arg is not None:
-                    out.append((arg, c, n))
-    return out
-
-
-SAFE_STR = ('__name__', 'join(', 'tracks_str', 'messages')
-
-
-def r14_repr(ctx):
-    """repr conversions."""
-    n = 0
-    targets = [(MSG, 'BaseMessage'), (wire.META_MOD, 'UnknownMetaMessage'), (wire.TR_MOD, 'MidiTrack'), (smf.MF, 'MidiFile'),
-               ('mido.frozen', 'FrozenUnknownMetaMessage')]
-    for modname, cname in targets:
-        c = ctx.p.cls(modname, cname)
-        fn = c.methods.get('__repr__')
-        if fn is None:
-            ctx.fail('R14.1', f'{cname}.__repr__', f'{c.module.relpath}:{c.node.lineno} {cname}', 'no __repr__', construct=f'{c.qname}::__repr__')
-            continue
-        ctx.fn(fn)
-        for expr, conv, holder in _fmt_values(fn.node):
-            txt = unparse(expr)
-            n += 1
-            if conv == 'r' or txt.startswith('repr(') or any(k in txt for k in SAFE_STR):
-                ctx.ok('R14.1', f'{cname}.__repr__[{txt[:30]}]', ctx.where(fn, holder))
-                continue
-            # plain str conversion is fine for ints/floats and tuples of them, for strings already built from reprs
-            if cname == 'UnknownMetaMessage' and txt in ('self.type_byte', 'self.data', 'self.time'):
-                ctx.ok('R14.1', f'{cname}.__repr__[{txt}]', ctx.where(fn, holder), 'int/tuple: str equals repr')
-                continue
-            if cname == 'MidiFile' and txt in ('self.type', 'self.ticks_per_beat'):
-                ctx.ok('R14.1', f'{cname}.__repr__[{txt}]', ctx.where(fn, holder), 'int: str equals repr')
-                continue
-            if cname == 'BaseMessage' and txt == 'name':
-                ctx.ok('R14.1', f'{cname}.__repr__[{txt}]', ctx.where(fn, holder), 'keyword name')
-                continue
-            ctx.fail('R14.1', f'{cname}.__repr__[{txt[:30]}]', ctx.where(fn, holder),
-                     f'{txt} is interpolated with str() instead of repr(): the result is not an evaluable expression',
-                     construct=f'{fn.qname}::str-conversion({txt[:40]})')
-    ctx.floor('R14.1', n, 9)
-    # BaseMessage.__repr__ takes its keyword names from _get_value_names = value_names + time (the constructor's keywords)
-    base = ctx.p.cls(MSG, 'BaseMessage')
-    gv = base.methods.get('_get_value_names')
-    rp = base.methods.get('__repr__')
-    ok = gv is not None and "SPEC_BY_TYPE[self.type]['value_names']" in unparse(gv.node) and "'time'" in unparse(gv.node) \
-        and 'self._get_value_names()' in unparse(rp.node) and 'repr(self.type)' in unparse(rp.node) and 'type(self).__name__' in unparse(rp.node)
-    ctx.require(ok, 'R14.1', 'BaseMessage.__repr__.names', ctx.where(rp), 'repr keyword names do not come from the spec value_names (+ time)',
-                construct=f'{rp.qname}::names')
-    mm = ctx.p.cls(wire.META_MOD, 'MetaMessage')
-    gv2 = mm.methods.get('_get_value_names')
-    ok = gv2 is not None and 'spec.attributes' in unparse(gv2.node) and "'time'" in unparse(gv2.node)
-    ctx.require(ok, 'R14.1', 'MetaMessage._get_value_names', ctx.where(gv2) if gv2 else 'mido/midifiles/meta.py:1', 'meta repr keyword names do not come from spec.attributes (+ time)',
-                construct=f'{mm.qname}::_get_value_names')
-    # MidiTrack.__repr__: branches on len(self)
-    tr = ctx.p.cls(wire.TR_MOD, 'MidiTrack').methods.get('__repr__')
-    from ..paths import enumerate_paths
-    ps = enumerate_paths(tr.node)
-    ctx.paths += len(ps)
-    ctx.require(len(ps) >= 1 and all(p.status == 'return' for p in ps), 'R14.1', 'MidiTrack.__repr__.paths', ctx.where(tr), f'{len(ps)} paths',
-                construct=f'{tr.qname}::paths')
 
 
 # the structural conversion scan (r14_repr) was retired in favour of the semantic eval(repr(x)) rule below:
